@@ -324,8 +324,7 @@ def run(ctx) -> None:
                 ctx.fail("R41k", fn, st, inst, f"`{norm(st)[:60]}` takes evidence away that the macro has started (or that a call is in progress): "
                          "_validate_liveedit_method protects a macro while run_started_count > 0, so after this write a live edit may change "
                          "or remove the body of a macro that has already run; callers waiting on the counters no longer see the call in progress")
-    if n_w < 8:
-        raise AnchorError(f"only {n_w} writes of the macro call counters found (floor 8)")
+    ctx.floor("R41k", 8)
 
     # ---- R41d / R41e
     ctx.rule("R41d", "the recursion search follows every Call macro line")
